@@ -131,6 +131,20 @@ def check_pair(acc, pendulum, a, b):
                      lambda: op(ta, tb), "Duration")
         _compare(acc, pendulum, oname, "timedelta-left", case, lambda: op(ta, db), lambda: op(ta, tb),
                  "Duration" if oname == "add" else None)
+    # right operands whose length is an absolute value: an AbsoluteDuration (what Time.diff() returns) and an absolute
+    # Interval (what DateTime.diff() returns) of length |b|; unary minus does not change their sign
+    if b:
+        from pendulum.duration import AbsoluteDuration
+        epoch = pendulum.DateTime(2001, 1, 1, tzinfo=pendulum.UTC)
+        tabs = mk_td(abs(b))
+        for rname, right in (("AbsoluteDuration", AbsoluteDuration(microseconds=b)),
+                             ("absolute-Interval", pendulum.Interval(epoch.add(microseconds=abs(b)), epoch, absolute=True))):
+            if obs.td_us(right) != abs(b):
+                acc.c["seed_not_canonical"] += 1
+                continue
+            for oname, op in (("add", operator.add), ("sub", operator.sub)):
+                _compare(acc, pendulum, oname, f"D{oname[0]}{rname}", dict(case, right=rname), lambda: op(da, right),
+                         lambda: op(ta, tabs), "Duration")
     for oname, op, wt in (("floordiv", operator.floordiv, "number"), ("truediv", operator.truediv, "number"),
                           ("mod", operator.mod, "Duration"), ("divmod", divmod, ("number", "Duration"))):
         for rname, right in (("Duration", db), ("timedelta", tb)):
